@@ -27,7 +27,7 @@ LEVEL_NOTE = ("Tolerance 1e-6 relative to the largest contributing node (float32
               "monitor is not bit-for-bit). Cell-edge ties (X or Y = k + 1/2) admit either neighbouring cell as 'own cell'.")
 RULE = ("case = one world x 3 subgrids x 2000 positions (kinds: random nodes, per-level linear, linear in x,y,z over a flat bottom). Non-trivial: land faces contribute, positions "
         "on edges/rim and depths outside the level range are present; distinct by world parameters.")
-MANDATORY = ["vertical_grid_from_Vinfo_file_without_Vtransform", "time_reversed_clock", "subgrid_with_negative_limits", "positions_compared", "land_face_contributes", "depth_above_top_level", "depth_below_bottom_level", "depth_on_level", "edge_tie_positions", "rim_positions",
+MANDATORY = ["vertical_grid_from_Vinfo_Vstretching_2", "vertical_grid_from_Vinfo_file_without_Vtransform", "time_reversed_clock", "subgrid_with_negative_limits", "positions_compared", "land_face_contributes", "depth_above_top_level", "depth_below_bottom_level", "depth_on_level", "edge_tie_positions", "rim_positions",
              "packed_storage", "packed_with_different_scale_factors", "subgrid_pairs_compared", "scalar_values_compared", "linear_levels_exact", "linear3d_exact", "convexity_checked", "vtransform2", "e2e_displacements_checked", "e2e_scalar_values_checked", "consecutive_update_values_compared", "second_file_with_other_packing", "later_frame_nonzero_on_land_faces_first_frame_zero", "grid_file_with_mask_u_and_mask_v"]
 ASSUMPTIONS = ["add_offset of packed u/v is zero (the code documents that it ignores it)", "positions inside the valid region of every subgrid used"]
 TIMEOUT = {"quick": 900, "thorough": 3400}
@@ -188,6 +188,8 @@ def run_case(case: dict[str, Any], wd: Path) -> dict[str, Any]:
     hspec = dict(kind="flat", h=float(rng.uniform(20, 300))) if flat else dict(kind="random", hmin=hmin, hmax=float(rng.choice([60.0, 400.0, 3000.0])), seed=case["idx"])
     vert = dict(Vtransform=Vt, Vstretching=int(rng.choice([1, 4])), theta_s=float(rng.uniform(0.5, 7)), theta_b=float(rng.uniform(0.05, 1.0)),
                 hc=float(rng.uniform(0, hmin)) if Vt == 1 else float(rng.choice([5.0, 20.0, 200.0])))
+    if case["idx"] % 5 == 2:
+        vert["Vstretching"] = [2, 1, 4][(case["idx"] // 5) % 3]  # the Vinfo cases go through ladim's own stretching curves: all three kinds
     packed = kind == "random" and rng.random() < 0.35
     if kind == "random":
         vel = dict(kind="random", seed=case["idx"], scale=1.0, steady=True)
@@ -332,6 +334,7 @@ def run_case(case: dict[str, Any], wd: Path) -> dict[str, Any]:
         results.append((sg_ * np.array(U, float), sg_ * np.array(Vv, float), sc, sg_ * fu, sg_ * fv))
     U0, V0, sc0, fu0, fv0 = results[0]
     sit["vertical_grid_from_Vinfo_file_without_Vtransform"] = int(use_vinfo and Vt == 2)
+    sit["vertical_grid_from_Vinfo_Vstretching_2"] = int(use_vinfo and vert["Vstretching"] == 2)
     sit["time_reversed_clock"] = int(rev_run)
     if kind == "random":
         # the second update of the same Forcing must give every particle exactly what the first gave the particle it swapped with
